@@ -509,6 +509,43 @@ def judge_local_later(case):
         unload(ref)
 
 
+def judge_shared_name(case):
+    """one reference string used by several annotations of a declaration, one of them a bare field with its own Field
+    constraints: the constraints belong to that field only, and every reference behaves as the direct spelling does"""
+    order, kind = case.get("order", 0), case.get("kind", "class")
+    if order not in (0, 1, 2) or kind not in ("class", "func"):
+        raise HarnessError("bad shared-name case")
+    _n[0] += 1
+    P = f"P{_n[0]}"
+    prule = f"class {P}(int, utype.Rule):\n    gt = 0\n"
+    fields = [("a", "{R}", "utype.Field(le=5, default=1)"), ("b", "List[{R}]", "utype.Field(default_factory=list)"), ("c", "Optional[{R}]", "None")]
+    fields = fields[order:] + fields[:order]
+
+    def body(ref):
+        if kind == "class":
+            return "class H(utype.Schema):\n" + "".join(f"    {n}: {a.format(R=ref)} = {d}\n" for n, a, d in fields) + "ENTRY = H.__from__\n"
+        params = ", ".join(f"{n}: {a.format(R=ref)} = " + (d if "default_factory" not in d else "utype.Param(default_factory=list)").replace("utype.Field(le=5, default=1)", "utype.Param(1, le=5)") for n, a, d in fields)
+        return f"@utype.parse\ndef fn({params}):\n    return {{'a': a, 'b': b, 'c': c}}\nENTRY = lambda d: fn(**d)\n"
+    head = "import utype\nfrom typing import *\n"
+    fwd = load(head + body(repr(P)) + prule, "snf")
+    ref = load(head + prule + body(P), "snr")
+    try:
+        fails = []
+        for data in ({"a": 7}, {"a": "3", "b": [7, "8"], "c": 9}, {"b": [0]}, {"c": -1}, {"a": 0}, {"a": 5, "b": [6]}):
+            a = oracle.outcome(fwd.ENTRY, dict(data))
+            b = oracle.outcome(ref.ENTRY, dict(data))
+            if a[0] in ("other", "hang") or b[0] in ("other", "hang"):
+                return {"status": "other", "fails": fails}
+            same = a[0] == b[0] and (a[0] != "ok" or oracle.equal(_strip_names(oracle.plain(a[1])), _strip_names(oracle.plain(b[1]))))
+            if not same:
+                fails.append((f"shared-reference-name/differs-from-direct-references/{kind}/{b[0]}->{a[0]}", {"input": data, "forward": oracle.short(a[1]), "direct": oracle.short(b[1]), "order": order}))
+                break
+        return {"status": "ok", "fails": fails, "unresolved": True}
+    finally:
+        unload(fwd)
+        unload(ref)
+
+
 def _strip_names(x):
     if isinstance(x, dict):
         return {k: _strip_names(v) for k, v in x.items() if k != "__cls__"}
@@ -518,6 +555,8 @@ def _strip_names(x):
 
 
 def run_case(case):
+    if case.get("part") == "shared_name":
+        return judge_shared_name(case)
     if case.get("part") == "local_later":
         return judge_local_later(case)
     if case.get("part") == "inherit":
@@ -626,7 +665,7 @@ def campaign(ctx):
     def body(case):
         r = run_case(case)
         ctx.label(f"status_{r['status']}")
-        if case.get("part") in ("twins", "inherit", "local_later"):
+        if case.get("part") in ("twins", "inherit", "local_later", "shared_name"):
             ctx.label("part_" + case["part"])
             ctx.nt(case)
         else:
@@ -672,3 +711,11 @@ def campaign(ctx):
                 continue
             ctx.ev()
             body({"part": "local_later", "wrap": wrap, "what": what})
+    # one reference name in several annotations, one of them a constrained bare field: enumerated completely
+    for order in (0, 1, 2):
+        for kind in ("class", "func"):
+            idx += 1
+            if idx % ctx.nshards != ctx.shard:
+                continue
+            ctx.ev()
+            body({"part": "shared_name", "order": order, "kind": kind})
